@@ -9,7 +9,7 @@ from vlib.drivers.quote import UNQ_TOKENS
 def gen(params):
     rnd = random.Random(params.get("seed", 0))
     fields = params["fields"]
-    toks = UNQ_TOKENS
+    toks = UNQ_TOKENS + ['%2E', '%2e', '.', 'x']
     texts = ["".join(t) for n in range(0, params["maxtok"] + 1) for t in itertools.product(toks, repeat=n)]
     for t in texts:
         if "/" in t or " " in t:
@@ -18,6 +18,6 @@ def gen(params):
             tt = t
         for enc in (True, False):
             which = rnd.randrange(4)
-            s = ["http://h/p/" + tt, "http://h/?k" + tt + "=" + tt + "&" + tt, "http://h/#" + tt,
+            s = ["http://h/p/" + tt + rnd.choice(["", ".gz", "%2Egz", ".tar%2egz"]), "http://h/?k" + tt + "=" + tt + "&" + tt, "http://h/#" + tt,
                  "http://" + tt.replace("+", "") + ":" + tt.replace("+", "") + "@h/"][which]
             yield {"prog": [{"op": "ctor", "s": [ord(c) for c in s], "encoded": enc}], "fields": fields}
